@@ -577,6 +577,10 @@ func (h *handler1) handleConnect(ctx context.Context, snConnect *snPkts1.Connect
 	}
 	if mqConnect.UsernameFlag {
 		mqConnect.Username = *h.cfg.MqttUser
+	} else {
+		// MQTT does not allow a password without a user name.
+		mqConnect.PasswordFlag = false
+		mqConnect.Password = nil
 	}
 
 	// Cancel previous transaction, if any.
